@@ -165,6 +165,11 @@ async fn replay(mut sim: Sim, beh: Arc<Value>) -> Result<Value, String> {
         match op {
             "dial" => {
                 let (d, l, k) = ((a - 1) as usize, (b - 1) as usize, s["x"].as_i64().unwrap());
+                // a later dial may come seconds after the earlier ones: how long a connection has been
+                // up plays no part in what happens to it
+                if k > 1 && (si + steps.len()) % 3 == 0 {
+                    settle(&mut sim, 2_700).await;
+                }
                 let net = sim.net(d).clone();
                 let addr = sim.addr(l);
                 let expect = if k % 2 == 0 { Some(sim.peer_id(l)) } else { None };
